@@ -748,6 +748,14 @@ fn show_hdr(h: &BlockHeader) -> String {
 	)
 }
 
+/// the timestamp range `read_block_header` accepts (chrono's NaiveDate range at midnight)
+fn reader_ts_range() -> (i64, i64) {
+	(
+		chrono::NaiveDate::MIN.and_hms_opt(0, 0, 0).unwrap().and_utc().timestamp(),
+		chrono::NaiveDate::MAX.and_hms_opt(0, 0, 0).unwrap().and_utc().timestamp(),
+	)
+}
+
 fn set_ts(h: &mut BlockHeader, ts: i64) {
 	h.timestamp = DateTime::<Utc>::from_timestamp(ts, 0).unwrap();
 }
@@ -809,7 +817,17 @@ fn mutants(v: &BlockHeader, prev: &BlockHeader, gp: Option<Hash>, rng: &mut Rng)
 		add("ts=prev", &|h| set_ts(h, pts), remined, true);
 		add("ts=prev-1", &|h| set_ts(h, pts - 1), remined, true);
 		add("ts=prev-14340", &|h| set_ts(h, pts - 14340), remined, true);
-		add("ts=0", &|h| set_ts(h, 0), remined, true);
+		add("ts=0", &|h| set_ts(h, 0), remined, 0 <= pts);
+		// timestamps before the unix epoch: the reader accepts them, the future-time limit bounds
+		// from above only; "strictly later than the parent" is a comparison of signed seconds
+		let (ts_min, ts_max) = reader_ts_range();
+		add("ts=-60(1969-12-31T23:59:00)", &|h| set_ts(h, -60), remined, -60 <= pts);
+		add("ts=-1", &|h| set_ts(h, -1), remined, -1 <= pts);
+		add("ts=-prev", &|h| set_ts(h, -pts), remined, -pts <= pts);
+		add("ts=prev-2^32", &|h| set_ts(h, pts - (1i64 << 32)), remined, true);
+		add("ts=reader-min", &|h| set_ts(h, ts_min), remined, ts_min <= pts);
+		add("ts=reader-min+1day", &|h| set_ts(h, ts_min + 86_400), remined, ts_min + 86_400 <= pts);
+		add("ts=reader-max", &|h| set_ts(h, ts_max), remined, ts_max <= pts);
 		// a far-future timestamp is not a pipeline rule (only the network decode checks it)
 		add("ts=far-future", &|h| set_ts(h, far), remined, false);
 		// a different later timestamp with fresh PoW is simply another valid header
@@ -1069,17 +1087,29 @@ fn run_chain(out: &mut Out, rng: &mut Rng, thorough: bool) {
 	let _ = std::fs::remove_dir_all(format!("{}/subject", work));
 	std::fs::create_dir_all(&work).unwrap();
 	let mut stats = Stats(BTreeMap::new());
+	// second pass: a chain whose genesis is dated before the unix epoch, so that parents (and the
+	// difficulty windows) carry negative timestamps until the chain crosses 1970-01-01
+	let passes: Vec<(&str, Option<i64>, u32)> = vec![
+		("", None, if thorough { 75 } else { 26 }),
+		("-pre-epoch", Some(-700), if thorough { 40 } else { 14 }),
+	];
+	for (pass, gen_ts, n_blocks) in passes {
+	let _ = std::fs::remove_dir_all(format!("{}/builder{}", work, pass));
+	let _ = std::fs::remove_dir_all(format!("{}/subject{}", work, pass));
 	let seed = rng.bytes(32);
 	let kc = ExtKeychain::from_seed(&seed, false).unwrap();
 	let genesis = {
 		let key_id = ExtKeychain::derive_key_id(0, 1, 0, 0, 0);
 		let reward =
 			libtx::reward::output(&kc, &libtx::ProofBuilder::new(&kc), &key_id, 0, false).unwrap();
-		genesis::genesis_dev().with_reward(reward.0, reward.1)
+		let mut g = genesis::genesis_dev().with_reward(reward.0, reward.1);
+		if let Some(t) = gen_ts {
+			set_ts(&mut g.header, t);
+		}
+		g
 	};
-	let builder = open_chain(&format!("{}/builder", work), &genesis);
-	let subject = open_chain(&format!("{}/subject", work), &genesis);
-	let n_blocks: u32 = if thorough { 75 } else { 26 };
+	let builder = open_chain(&format!("{}/builder{}", work, pass), &genesis);
+	let subject = open_chain(&format!("{}/subject{}", work, pass), &genesis);
 	// heights at which the full mutation set is delivered (every era; all of them in thorough)
 	let full_every = if thorough { 1 } else { 1 };
 	for n in 1..=n_blocks {
@@ -1091,9 +1121,14 @@ fn run_chain(out: &mut Out, rng: &mut Rng, thorough: bool) {
 			4 => rng.range(600, 20000) as i64,
 			_ => rng.range(30, 120) as i64,
 		};
+		let gap = if gen_ts.is_some() { gap.min(1 + gap % 500) } else { gap };
 		let b = build_next(&builder.chain, &kc, n, gap);
 		let v = b.header.clone();
 		let prev = subject.chain.get_block_header(&v.prev_hash).unwrap();
+		stats.hit(if prev.timestamp.timestamp() < 0 { "parent_ts_negative" } else { "parent_ts_nonnegative" });
+		if prev.timestamp.timestamp() < 0 && v.timestamp.timestamp() >= 0 {
+			stats.hit("valid_block_crosses_epoch");
+		}
 		let gp = if prev.height > 0 { Some(prev.prev_hash) } else { None };
 		// the model's DifficultyIter against the real one
 		{
@@ -1165,6 +1200,7 @@ fn run_chain(out: &mut Out, rng: &mut Rng, thorough: bool) {
 				v.height, hh.height
 			));
 		}
+	}
 	}
 	stats.dump(out, "chain");
 }
@@ -2338,15 +2374,19 @@ fn run_forks(out: &mut Out, rng: &mut Rng, thorough: bool) {
 	let work = std::env::var("VERIF_WORK").unwrap_or_else(|_| "/verif/work/cons-forks.d".to_string());
 	let _ = std::fs::remove_dir_all(&work);
 	std::fs::create_dir_all(&work).unwrap();
-	let mut chains: Vec<(ChainTypes, &str, &str, u64, usize)> = vec![
-		(ChainTypes::Mainnet, "main", "fm", 1 << 17, if thorough { 500 } else { 160 }),
-		(ChainTypes::AutomatedTesting, "auto", "fa", 1000, if thorough { 400 } else { 120 }),
-		(ChainTypes::UserTesting, "user", "fu", 3000, if thorough { 250 } else { 70 }),
+	// (chain type, its token, name of the run part, node id, genesis total difficulty, steps,
+	//  genesis timestamp override: a tree that starts before the unix epoch and grows across it)
+	let mut chains: Vec<(ChainTypes, &str, &str, &str, u64, usize, Option<i64>)> = vec![
+		(ChainTypes::Mainnet, "main", "main", "fm", 1 << 17, if thorough { 500 } else { 160 }, None),
+		(ChainTypes::AutomatedTesting, "auto", "auto", "fa", 1000, if thorough { 400 } else { 120 }, None),
+		(ChainTypes::UserTesting, "user", "user", "fu", 3000, if thorough { 250 } else { 70 }, None),
+		(ChainTypes::Mainnet, "main", "main-pre-epoch", "fmn", 1 << 17, if thorough { 250 } else { 70 }, Some(-6000)),
+		(ChainTypes::AutomatedTesting, "auto", "auto-pre-epoch", "fan", 1000, if thorough { 250 } else { 70 }, Some(-4000)),
 	];
 	if thorough {
-		chains.push((ChainTypes::Testnet, "test", "ft", 1 << 16, 300));
+		chains.push((ChainTypes::Testnet, "test", "test", "ft", 1 << 16, 300, None));
 	}
-	for (ct, cn, id, g_td, n_steps) in chains.iter() {
+	for (ct, ctok, cn, id, g_td, n_steps, gen_ts) in chains.iter() {
 		global::set_local_chain_type(*ct);
 		let mut kr = KnownRun {
 			stats: Stats(BTreeMap::new()),
@@ -2364,6 +2404,9 @@ fn run_forks(out: &mut Out, rng: &mut Rng, thorough: bool) {
 			_ => genesis::genesis_dev(),
 		};
 		genesis.header.pow.total_difficulty = Difficulty::from_num(*g_td);
+		if let Some(t) = gen_ts {
+			set_ts(&mut genesis.header, *t);
+		}
 		let chain = match pc(|| {
 			Chain::init(
 				format!("{}/{}", work, cn),
@@ -2380,7 +2423,7 @@ fn run_forks(out: &mut Out, rng: &mut Rng, thorough: bool) {
 				continue;
 			}
 		};
-		out.line(&format!("cons wnode {} newct {} {}", id, cn, kr.fhdr(&genesis.header)), "ok");
+		out.line(&format!("cons wnode {} newct {} {}", id, ctok, kr.fhdr(&genesis.header)), "ok");
 		kr.state(out, id, &chain);
 		let mut tree: Vec<TreeHdr> = vec![TreeHdr {
 			h: genesis.header.clone(),
@@ -2478,6 +2521,42 @@ fn run_forks(out: &mut Out, rng: &mut Rng, thorough: bool) {
 					wrong.push(("difficulty-1".to_string(), d0 - 1, s0));
 				}
 				let hh_before = chain.header_head().unwrap();
+				// the time rule on signed seconds: not later than the parent (equal, earlier, before
+				// the epoch, at the reader's lower bound) with everything else by the rules
+				if rng.chance(1, 3) {
+					let pts = prev.timestamp.timestamp();
+					let mut tvs: Vec<(&str, i64)> = vec![("ts=parent", pts), ("ts=parent-1", pts - 1)];
+					if pts >= 0 {
+						tvs.push(("ts=-60-on-nonnegative-parent", -60));
+						tvs.push(("ts=-parent-1", -pts - 1));
+					} else {
+						tvs.push(("ts=parent-2^33-both-negative", pts - (1i64 << 33)));
+					}
+					tvs.push(("ts=reader-min", reader_ts_range().0));
+					let pick = tvs[rng.below(tvs.len() as u64) as usize];
+					for (tk, t) in [tvs[0], pick].iter() {
+						let m = match make_db_header(rng, &prev, root, d0, s0, eb, *t - pts, true) {
+							Some(m) => m,
+							None => continue,
+						};
+						out.raw(&format!("# forks {} step {} height {} {} parent_ts={}", cn, step, m.height, tk, pts));
+						kr.stats.hit(&format!("time_{}", tk));
+						kr.stats.hit(if pts < 0 { "time_variant_parent_negative" } else { "time_variant_parent_nonnegative" });
+						let class = if chunked && !chunk.is_empty() {
+							let mut batch = chunk.clone();
+							batch.push(m.clone());
+							kr.sync(out, id, &chain, Options::NONE, &batch)
+						} else {
+							kr.pbh(out, id, &chain, Options::NONE, &m)
+						};
+						let hh = chain.header_head().unwrap();
+						if class != "InvalidBlockTime" || hh.last_block_h != hh_before.last_block_h
+							|| chain.get_block_header(&m.hash()).is_ok()
+						{
+							kr.fail(out, format!("forks {}: header dated {} on a parent dated {} ({}) answered {} instead of InvalidBlockTime: hdr={}", cn, t, pts, tk, class, show_stored(&m)));
+						}
+					}
+				}
 				for (wkind, d, s) in wrong.iter() {
 					let m = match make_db_header(rng, &prev, root, *d, *s, eb, gap, true) {
 						Some(m) => m,
@@ -2514,6 +2593,11 @@ fn run_forks(out: &mut Out, rng: &mut Rng, thorough: bool) {
 				parent = me;
 				kr.stats.hit(if eb == second { "hdr_secondary" } else { "hdr_primary" });
 				kr.stats.hit(&format!("hdr_v{}", exact.version.0));
+				if exact.timestamp.timestamp() < 0 {
+					kr.stats.hit("hdr_ts_negative");
+				} else if prev.timestamp.timestamp() < 0 {
+					kr.stats.hit("hdr_crosses_epoch");
+				}
 				chunk.push(exact.clone());
 				chunk_idx.push(me);
 				if chunked && k + 1 < len {
@@ -3487,6 +3571,9 @@ fn untrusted_lines(out: &mut Out, stats: &mut Stats, v: &BlockHeader, rng: &mut 
 	add("future+pow", &|h| set_ts(h, f1), true);
 	add("near-future+pow", &|h| set_ts(h, f0), true);
 	add("future", &|h| set_ts(h, f1), false);
+	// a pre-epoch timestamp is within the reader's range and below the limit: decodes
+	add("ts=-60+pow", &|h| set_ts(h, -60), true);
+	add("ts=reader-min+pow", &|h| set_ts(h, reader_ts_range().0), true);
 	add("version+1+pow", &|h| h.version = HeaderVersion(h.version.0 + 1), true);
 	add("version=0+pow", &|h| h.version = HeaderVersion(0), true);
 	add("edge_bits-1", &|h| h.pow.proof.edge_bits -= 1, false);
